@@ -131,33 +131,50 @@ theorem foldl_digits (ds : List (Fin 10)) :
   rw [List.foldl_map]; unfold natOfDigits
   congr 1; funext acc d; rw [digitChar_val]
 
+/-- `parseDecimal` behind the sign -/
+def parseCore (neg : Bool) (rest : List Char) : Option (Bool × Nat × Nat) :=
+  let intPart := rest.takeWhile isDigit
+  let rest' := rest.dropWhile isDigit
+  let (frac, tail, hadDot) := match rest' with
+    | '.' :: r => (r.takeWhile isDigit, r.dropWhile isDigit, true)
+    | r => ([], r, false)
+  if tail ≠ [] ∨ (intPart = [] ∧ frac = []) then none else
+  let _ := hadDot
+  let digits := intPart ++ frac
+  let n := digits.foldl (fun acc c => acc * 10 + (c.toNat - '0'.toNat)) 0
+  some (neg, n, frac.length)
+
+theorem parseDecimal_minus (r : List Char) : parseDecimal ('-' :: r) = parseCore true r := rfl
+theorem parseDecimal_plus (r : List Char) : parseDecimal ('+' :: r) = parseCore false r := rfl
+theorem parseDecimal_unsigned (r : List Char) (h1 : r.head? ≠ some '-') (h2 : r.head? ≠ some '+') :
+    parseDecimal r = parseCore false r := by
+  unfold parseDecimal
+  split
+  rename_i heq
+  split at heq
+  · simp at h1
+  · simp at h2
+  · cases heq; rfl
+
 /-- the unsigned part -/
 theorem parse_body (t : Tok) (hok : t.ok = true) (neg : Bool) :
-    (let rest := t.int.map digitChar ++ fracR t
-     let intPart := rest.takeWhile isDigit
-     let rest' := rest.dropWhile isDigit
-     let (frac, tail, hadDot) := match rest' with
-       | '.' :: r => (r.takeWhile isDigit, r.dropWhile isDigit, true)
-       | r => ([], r, false)
-     if tail ≠ [] ∨ (intPart = [] ∧ frac = []) then none else
-     let _ := hadDot
-     let digits := intPart ++ frac
-     let n := digits.foldl (fun acc c => acc * 10 + (c.toNat - '0'.toNat)) 0
-     some (neg, n, frac.length)) =
+    parseCore neg (t.int.map digitChar ++ fracR t) =
     some (neg, natOfDigits (t.int ++ t.fracDigits), t.fracDigits.length) := by
   have htw : (t.int.map digitChar ++ fracR t).takeWhile isDigit = t.int.map digitChar := by
     rw [List.takeWhile_append_of_pos isDigit_of_mem_map]
-    unfold fracR; cases t.frac <;> simp [List.takeWhile_cons, show isDigit '.' = false by decide]
+    unfold fracR; cases t.frac <;> simp [show isDigit '.' = false by decide]
   have hdw : (t.int.map digitChar ++ fracR t).dropWhile isDigit = fracR t := by
     rw [List.dropWhile_append_of_pos isDigit_of_mem_map]
-    unfold fracR; cases t.frac <;> simp [List.dropWhile_cons, show isDigit '.' = false by decide]
+    unfold fracR; cases t.frac <;> simp [show isDigit '.' = false by decide]
+  unfold parseCore
   simp only [htw, hdw]
   unfold fracR
   cases hf : t.frac with
   | none =>
     have hi : t.int ≠ [] := by
       intro h; simp [Tok.ok, Tok.fracDigits, h, hf] at hok
-    simp [Tok.fracDigits, hf, hi, foldl_digits]
+    simp [Tok.fracDigits, hf, hi]
+    exact foldl_digits _
   | some f =>
     have htw2 : (f.map digitChar).takeWhile isDigit = f.map digitChar := by
       have := List.takeWhile_append_of_pos (l₂ := []) (isDigit_of_mem_map (l := f))
@@ -177,22 +194,12 @@ theorem parse_render (t : Tok) (hok : t.ok = true) :
   rw [render_eq]
   cases hs : t.sign with
   | minus =>
-    simp only [Sign.render, List.cons_append, List.nil_append, parseDecimal]
+    simp only [Sign.render, List.cons_append, List.nil_append, parseDecimal_minus]
     exact parse_body t hok true
   | plus =>
-    simp only [Sign.render, List.cons_append, List.nil_append, parseDecimal]
+    simp only [Sign.render, List.cons_append, List.nil_append, parseDecimal_plus]
     exact parse_body t hok false
   | none =>
-    have key : ∀ r : List Char, r.head? ≠ some '-' → r.head? ≠ some '+' →
-        (match r with
-          | '-' :: r => (true, r)
-          | '+' :: r => (false, r)
-          | r => (false, r)) = (false, r) := by
-      intro r h1 h2
-      split
-      · simp at h1
-      · simp at h2
-      · rfl
     have hh1 : (t.int.map digitChar ++ fracR t).head? ≠ some '-' := by
       unfold fracR
       cases hi : t.int with
@@ -203,8 +210,117 @@ theorem parse_render (t : Tok) (hok : t.ok = true) :
       cases hi : t.int with
       | cons d ds => simpa using digitChar_ne_plus d
       | nil => cases hf : t.frac <;> simp
-    simp only [Sign.render, List.nil_append, parseDecimal]
-    rw [key _ hh1 hh2]
+    simp only [Sign.render, List.nil_append]
+    rw [parseDecimal_unsigned _ hh1 hh2]
     exact parse_body t hok false
+
+/-! ## `scanArgs` -/
+
+theorem sepFun_eq : (fun c : Char => decide (c = ' ' ∨ c = ',')) = isSep := rfl
+
+/-- one numeral, followed by something that ends it -/
+theorem scanArgs_tok {α : Type} [Arith α] (n : Nat) (t : Tok) (hok : t.ok = true) (x : Char) (X : List Char)
+    (hx : Stops t x) :
+    scanArgs (α := α) (n + 1) (t.render ++ x :: X) =
+      (if (x :: X).dropWhile isSep = [] then .error .malformed else
+        match scanArgs (α := α) n ((x :: X).dropWhile isSep) with
+        | .error e => .error e
+        | .ok (vs, d') => .ok (t.value :: vs, d')) := by
+  obtain ⟨c0, tl, hr, hlen⟩ := scan_tok_len t hok x X hx
+  have htake : (c0 :: (tl ++ x :: X)).take t.render.length = t.render := by
+    rw [← List.cons_append, ← hr]; exact List.take_left' rfl
+  have hdrop : (c0 :: (tl ++ x :: X)).drop t.render.length = x :: X := by
+    rw [← List.cons_append, ← hr]; exact List.drop_left' rfl
+  rw [hr, List.cons_append]
+  simp only [scanArgs, hlen, htake, hdrop, parse_render t hok, sepFun_eq]
+  rfl
+
+/-- the first character of a printed numeral -/
+theorem tok_first (t : Tok) (hok : t.ok = true) :
+    ∃ w tl, t.render = w :: tl ∧ isSep w = false ∧ verbArgCount w = none ∧
+      (t.sign ≠ .none → isDigit w = false ∧ w ≠ '.') ∧ (t.sign = .none → t.int = [] → w = '.') := by
+  rw [render_eq]
+  cases hs : t.sign with
+  | minus => exact ⟨'-', _, by simp [Sign.render]; rfl, by decide, by decide, fun _ => by decide, fun h => by cases h⟩
+  | plus => exact ⟨'+', _, by simp [Sign.render]; rfl, by decide, by decide, fun _ => by decide, fun h => by cases h⟩
+  | none =>
+    cases hi : t.int with
+    | cons d ds =>
+      exact ⟨digitChar d, _, by simp [Sign.render]; rfl, digitChar_not_sep d, digitChar_not_verb d,
+        fun h => absurd rfl h, fun _ h => by cases h⟩
+    | nil =>
+      unfold fracR
+      cases hf : t.frac with
+      | none => simp [Tok.ok, Tok.fracDigits, hi, hf] at hok
+      | some f =>
+        exact ⟨'.', _, by simp [Sign.render]; rfl, by decide, by decide, fun h => absurd rfl h, fun _ _ => rfl⟩
+
+/-- `x` delimits the numeral `t` written with its separator run -/
+def Delim (t : CTok) (x : Char) : Prop := isSep x = false ∧ (t.sep ≠ [] ∨ Stops t.tok x)
+
+/-- the character following the (printed) numerals `r`, when `x` follows them -/
+def firstOf (r : List CTok) (x : Char) : Char :=
+  match r.flatMap CTok.render with
+  | [] => x
+  | c :: _ => c
+
+theorem firstOf_spec (r : List CTok) (x : Char) (X : List Char) :
+    ∃ X', r.flatMap CTok.render ++ x :: X = firstOf r x :: X' := by
+  unfold firstOf
+  cases h : r.flatMap CTok.render with
+  | nil => exact ⟨X, rfl⟩
+  | cons c cs => exact ⟨cs ++ x :: X, rfl⟩
+
+/-- every numeral of the list is delimited by what follows it, the last one by `x` -/
+def ChainTo : List CTok → Char → Prop
+  | [], _ => True
+  | t :: r, x => Delim t (firstOf r x) ∧ ChainTo r x
+
+def TokOK (t : CTok) : Prop := t.tok.ok = true ∧ t.sep.all isSep = true
+
+theorem ctok_render_cons (t : CTok) (h : TokOK t) : ∃ w tl, t.render = w :: tl ∧ t.tok.render = w :: (tl.take (t.tok.render.length - 1)) := by
+  obtain ⟨w, tl, hr, _⟩ := tok_first t.tok h.1
+  refine ⟨w, tl ++ t.sep, by simp [CTok.render, hr], ?_⟩
+  simp [hr]
+
+theorem firstOf_cons (t : CTok) (r : List CTok) (x : Char) (h : TokOK t) :
+    ∃ tl, t.tok.render = firstOf (t :: r) x :: tl := by
+  obtain ⟨w, tl, hr, _⟩ := tok_first t.tok h.1
+  refine ⟨tl, ?_⟩
+  simp [firstOf, CTok.render, hr]
+
+/-- reading a group of numerals -/
+theorem scan_group {α : Type} [Arith α] (g : List CTok) (hg : ∀ t ∈ g, TokOK t) (x : Char) (X : List Char)
+    (hch : ChainTo g x) (hx : isSep x = false) :
+    scanArgs (α := α) g.length (g.flatMap CTok.render ++ x :: X) =
+      .ok (g.map (fun t => t.tok.value), x :: X) := by
+  induction g with
+  | nil => simp [scanArgs]
+  | cons t r ih =>
+    have ht := hg t (List.mem_cons_self)
+    obtain ⟨W, hW⟩ := firstOf_spec r x X
+    have hsep : ∀ a ∈ t.sep, isSep a = true := by
+      have := ht.2; simpa [List.all_eq_true] using this
+    have hw : isSep (firstOf r x) = false := hch.1.1
+    -- what follows the numeral
+    have hdrop : (t.sep ++ (firstOf r x :: W)).dropWhile isSep = firstOf r x :: W := by
+      rw [List.dropWhile_append_of_pos hsep, List.dropWhile_cons, if_neg (by simp [hw])]
+    have hstop : ∃ y Y, t.sep ++ (firstOf r x :: W) = y :: Y ∧ Stops t.tok y := by
+      cases hs : t.sep with
+      | nil =>
+        refine ⟨firstOf r x, W, rfl, ?_⟩
+        rcases hch.1.2 with h | h
+        · exact absurd hs h
+        · exact h
+      | cons s ss =>
+        refine ⟨s, ss ++ firstOf r x :: W, rfl, ?_⟩
+        have := sep_not_digit (hsep s (by simp [hs]))
+        exact ⟨this.1, fun h => absurd h this.2⟩
+    obtain ⟨y, Y, hy, hstops⟩ := hstop
+    have hrender : (t :: r).flatMap CTok.render ++ x :: X = t.tok.render ++ y :: Y := by
+      rw [← hy, ← hW]; simp [CTok.render]
+    rw [hrender, List.length_cons, scanArgs_tok _ _ ht.1 _ _ hstops, ← hy, hdrop, if_neg (by simp), ← hW,
+      ih (fun t' h' => hg t' (List.mem_cons_of_mem _ h')) hch.2]
+    simp
 
 end Ivg.PathParse
